@@ -495,13 +495,13 @@ pub fn ticking_consumer(rng: &mut Rng, plan: &Plan) -> Consumer {
     }
 }
 
-/// A long quiet stretch (half a minute to an hour) in the middle of the session: one more caller
+/// A long quiet stretch (ten seconds to half an hour) in the middle of the session: one more caller
 /// that waits that long and then issues a request. A client that does something of its own on a
 /// long timer (keep-alive, refresh, liveness probe) is active at instants no short scenario
 /// reaches; `retarget_changes`, called afterwards, moves change events next to whatever it did
 /// there (on the code as it stands: nothing, the stretch is simply silent).
 pub fn add_long_quiet(rng: &mut Rng, plan: &mut Plan, ids: &mut Ids) {
-    let ms = *rng.pick(&[10_500u64, 31_000, 61_000, 125_000, 301_000, 601_000, 3_601_000]);
+    let ms = *rng.pick(&[10_500u64, 31_000, 61_000, 125_000, 301_000, 601_000, 1_801_000]);
     let id = ids.next();
     plan.callers.push(vec![Op::Think { ms }, Op::Request { id }]);
     for _ in 0..rng.urange(1, 3) {
